@@ -88,7 +88,7 @@ func mutate(t *rapid.T, in []byte) []byte {
 
 // headerPieces are the building blocks of a log line's header; lines glued together from them reach every
 // boundary of the header parser (a missing space, an empty type name, a missing colon, two "msg=" ...).
-var headerPieces = []string{"type=", "msg=", "audit(", "1.000", ":", "2", ")", " ", "SYSCALL", "UNKNOWN[", "1300", "]", ".", "=", "",
+var headerPieces = []string{"type=", "msg=", "audit(", "1.000", ":", "2", ")", " ", "SYSCALL", "UNKNOWN[", "1300", "]", ".", "=", "", " msg=", "][", "[",
 	"type", "msg", "audit", "(", "1", "000", "-", "99999999999999999999", "\t", "'", "node=h ", "): ", "a=b", "x"}
 
 func genC05(t *rapid.T) C05Case {
@@ -217,10 +217,10 @@ func TestC05Regress(t *testing.T) { hx.Regress(t, hC05, "TestC05", propC05) }
 
 func TestC05(t *testing.T) { hx.Check(t, hC05, "TestC05", genC05, propC05) }
 
-// TestC05HeaderSoup enumerates every concatenation of up to five of the first fifteen header pieces (about
+// TestC05HeaderSoup enumerates every concatenation of up to four (thorough: five) of the first eighteen header pieces (about
 // 800 000 lines) through ParseLogLine, and the ones without "type=" through Parse as well.
 func TestC05HeaderSoup(t *testing.T) {
-	pieces := headerPieces[:15]
+	pieces := headerPieces[:18]
 	depth := 5
 	if !hx.Thorough() {
 		depth = 4
